@@ -314,11 +314,12 @@ private:
                 std::integral_constant<bool, is_bit_aligned_t::value> // TODO: Simplify after MPL removal
             > neg;
 
-        detail::swap_half_bytes
+        // PBM packs the leftmost pixel into the most significant bit, bit-aligned GIL rows start at the least significant bit
+        detail::mirror_bits
             <
                 typename rh_t::buffer_t,
                 std::integral_constant<bool, is_bit_aligned_t::value> // TODO: Simplify after MPL removal
-            > swhb;
+            > mirror( true );
 
         //Skip scanlines if necessary.
         for( y_t y = 0; y < this->_settings._top_left.y; ++y )
@@ -335,7 +336,7 @@ private:
                         );
 
             neg( rh.buffer() );
-            swhb( rh.buffer() );
+            mirror( rh.buffer() );
 
             this->_cc_policy.read( beg
                                  , end
